@@ -50,7 +50,18 @@ def check(ctx, R):
     # async close really closes: writer.close() and wait_closed() under the connected guard
     fa = ctx.pkg.cls("transport.tcp_transport_async.TcpTransportAsync").methods["close"]
     ga = ctx.cfg(fa)
-    calls = [call_attr(c) for n in ga.live_nodes() for c in node_calls(n) if isinstance(c.func, ast.Attribute) and varkey(unawait(c.func.value)) == fa.params[0] + "._writer"]
+    dfa = ctx.df(fa)
+
+    def is_writer(node, e):
+        e = unawait(e)
+        if varkey(e) == fa.params[0] + "._writer":
+            return True
+        if isinstance(e, ast.Name):
+            # a snapshot taken in this method: `writer = self._writer`
+            d = dfa.unique_def(node, e.id)
+            return d is not None and d.kind == "assign" and not d.path and d.value is not None and varkey(unawait(d.value)) == fa.params[0] + "._writer"
+        return False
+    calls = [call_attr(c) for n in ga.live_nodes() for c in node_calls(n) if isinstance(c.func, ast.Attribute) and is_writer(n, c.func.value)]
     R.check(calls == ["close", "wait_closed"], "CLOSE", fa.qualname + "|closes-writer", "the stream writer is closed and awaited", "async close() calls %s on the writer, expected close() then wait_closed()" % calls, fa.loc())
     # the address a session goes to: (host, port) stored unchanged and forwarded unchanged by the TCP device classes
     from ..argrule import arg_rule
